@@ -43,7 +43,7 @@ def plan(tier):
 def required_regimes(tier):
     return {'pair:equal_len', 'pair:different_len', 'size:h!=w', 'size:h==w', 'size:odd', 'form:4tuple', 'form:2tuple',
             'form:name', 'analysis', 'synthesis', 'functional_afb2d', 'functional_sfb2d', 'functional:arrays',
-            'functional:prepared_tensors', 'functional:module_buffers', 'none_levels'}
+            'functional:prepared_tensors', 'functional:module_buffers', 'none_levels', 'backward_per_axis'}
 
 
 def _waves(item):
@@ -110,6 +110,24 @@ def run(item):
             if d is not None:
                 res.violation('analysis_axes_vs_pywt', cfg, d, tags)
             res.op(Ai)
+            # ---- back-propagation through the per-axis module is the transpose of its own operator (modes where C05 holds exactly)
+            if item['form'] == '4tuple' and mode in ('zero', 'periodization') and h * w <= 64 and J <= 2:
+                from .. import jac
+                fm = DWTForward(J=J, wave=fa, mode=mode)
+
+                def ff(x, fm=fm):
+                    a_, b_ = fm(x)
+                    return [a_] + list(b_)
+                try:
+                    G, M = jac.vjp_matrices(ff, [torch.zeros((1, 1, h, w))], [True])
+                    res['impl_calls'] += 1
+                    res['evals'] += M
+                    res.regime('backward_per_axis')
+                    d = {'kind': 'no_gradient'} if G[0] is None else cmp_mats(G[0], Ai.T)
+                except Exception as e:
+                    d = {'kind': 'raise', 'exc': repr(e)[:200]}
+                if d is not None:
+                    res.violation('backward_axes', cfg, d, tags)
             # ---- functional afb2d (single level, same four filters): array form, prepared-tensor form, module buffers
             if J == 1 and item['form'] == '4tuple':
                 fmod = DWTForward(J=1, wave=fa, mode=mode)
